@@ -50,11 +50,15 @@ SHAPES = [
     ('struct_named', Struct(0, DStruct((1, L('U16')), (2, Opt(L('Bool'))))), True),
     ('enum_unit2', Enum(0, (1, DUnit()), (2, DUnit())), False),
     ('enum_mixed', Enum(0, (1, DUnit()), (2, DNew(L('Char')))), True),
-    ('enum_tuple_struct', Enum(0, (1, DTup(L('U8'), L('I64'))), (2, DStruct((3, L('Isize'))))), False),
+    ('enum_tuple_struct', Enum(0, (1, DTup(L('U8'), L('I64'))), (2, DStruct((3, L('Isize'))))), True),
     ('depth3_containers', Opt(Seq(Tup(L('U8')))), False),
     ('depth3_named', Struct(0, DNew(Enum(1, (2, DNew(Struct(3, DUnit())))))), False),
     ('map_nested', Map(L('Usize'), Seq(L('Schema'))), False),
     ('seq_enum', Seq(Enum(0, (1, DUnit()))), False),
+    ('struct_tuple0', Struct(0, DTup()), False),
+    ('enum_tuple0', Enum(0, (1, DTup()), (2, DUnit())), False),
+    ('struct_tuple1', Struct(0, DTup(L('U8'))), False),
+    ('enum_tuple1', Enum(0, (1, DTup(L('U16')))), False),
     ('tuple_wide', Tup(L('I8'), L('I16'), L('I32'), L('I128'), L('U32'), L('U64'), L('U128'), L('F64'), L('ByteArray'), L('Unit')), False),
 ]
 
@@ -267,16 +271,39 @@ def main():
         # ---- C15: identical encoding
         g = Gen(); build_prelude(g, sid, tree, True, True)
         g.emit('same_encoding(borrowed, &owned);')
-        out += harness('c15_enc_' + sid, 'tier=%s class=core cap=900 bounds="%s: to_slice(borrowed) == to_slice(owned)"' % (tier, desc), 8, g.lines)
+        out += harness('c15_enc_' + sid, 'tier=%s class=core cap=1200 bounds="%s: to_slice(borrowed) == to_slice(owned)"' % (tier, desc), 34, g.lines)
         # ---- C15 best-effort: From conversion equals the documented owned tree
         g = Gen(); build_prelude(g, sid, tree, True, True)
         g.emit('conversion_matches(borrowed, &owned);')
-        out += harness('c15_from_' + sid, 'tier=thorough class=best cap=900 bounds="%s: OwnedDataModelType::from(borrowed) re-encodes to the bytes of the documented owned tree and has the same root kind"' % desc, 8, g.lines)
+        out += harness('c15_from_' + sid, 'tier=thorough class=best cap=900 bounds="%s: OwnedDataModelType::from(borrowed) re-encodes to the bytes of the documented owned tree and has the same root kind"' % desc, 34, g.lines)
         # ---- C15 best-effort: decode
         g = Gen(); build_prelude(g, sid, tree, False, True)
         g.emit('decode_matches(&owned);')
-        out += harness('c15_dec_' + sid, 'tier=thorough class=best cap=900 bounds="%s: from_bytes::<OwnedDataModelType>(to_slice(owned)) re-encodes to the same bytes"' % desc, 8, g.lines)
-        # ---- C16 owned hasher == reference stream
+        out += harness('c15_dec_' + sid, 'tier=thorough class=best cap=900 bounds="%s: from_bytes::<OwnedDataModelType>(to_slice(owned)) re-encodes to the same bytes"' % desc, 34, g.lines)
+        # ---- C16 (2): both walkers emit the documented stream (hash_update replaced by a byte logger)
+        for who in ('owned', 'const'):
+            g = Gen(); build_prelude(g, sid, tree, who == 'const', who == 'owned')
+            g.emit('let path = Path::any();')
+            g.emit('stream_reset();')
+            if who == 'owned':
+                g.emit('let _k = postcard_schema::key::Key::for_owned_schema_path(path.as_str(), &owned);')
+            else:
+                g.emit('let _k = postcard_schema::key::hash::fnv1a64::verif_hash_static(path.as_str(), borrowed);')
+            g.emit('let mut want = Expect::new();')
+            g.emit('want.bytes(path.bytes());')
+            for (k, v) in stream(tree, []):
+                if k == 'tag':
+                    g.emit('want.tag(0x%02X);' % v)
+                else:
+                    g.emit('want.bytes(n%d.bytes());' % v)
+            g.emit('stream_equals(&want);')
+            g.emit('kani::cover!(path.len == 3, "3-byte path reachable");')
+            lines = g.lines
+            hook = ' hooks=H2' if who == 'const' else ''
+            h = harness('c16_%s_stream_%s' % (who, sid), 'tier=%s class=core cap=900 bounds="%s; path 0..=3 UTF-8 bytes: the %s hasher feeds exactly path ++ documented tag-and-name stream to hash_update" stubs="hash_update=byte logger (kernel verified separately)"%s' % (tier, desc, 'run-time' if who == 'owned' else 'compile-time', hook), 40, lines)
+            h.insert(1, '#[kani::stub(postcard_schema::key::hash::fnv1a64::hash_update, crate::shapes::hash_update_logger)]')
+            out += h
+        # ---- C16 (3): end-to-end, nothing stubbed: key == FNV-1a(path ++ stream) (best-effort, thorough)
         g = Gen(); build_prelude(g, sid, tree, False, True)
         g.emit('let path = Path::any();')
         g.emit('let mut h = ref_fnv(REF_BASIS, path.bytes());')
@@ -284,8 +311,7 @@ def main():
         g.emit('let key = postcard_schema::key::Key::for_owned_schema_path(path.as_str(), &owned);')
         g.emit('assert!(key.to_bytes() == h.to_le_bytes(), "run-time key differs from FNV-1a over path ++ documented tag-and-name stream");')
         g.emit('kani::cover!(path.len == 3, "3-byte path reachable");')
-        out += harness('c16_owned_' + sid, 'tier=%s class=core cap=900 bounds="%s; path 0..=3 UTF-8 bytes: run-time hasher vs reference FNV stream"' % (tier, desc), 8, g.lines)
-        # ---- C16 const hasher == reference stream (hook H2)
+        out += harness('c16_owned_e2e_' + sid, 'tier=thorough class=best cap=1200 bounds="%s; path 0..=3 UTF-8 bytes: run-time key vs reference FNV over the stream, nothing stubbed"' % desc, 8, g.lines)
         g = Gen(); build_prelude(g, sid, tree, True, False)
         g.emit('let path = Path::any();')
         g.emit('let mut h = ref_fnv(REF_BASIS, path.bytes());')
@@ -293,7 +319,7 @@ def main():
         g.emit('let key = postcard_schema::key::hash::fnv1a64::verif_hash_static(path.as_str(), borrowed);')
         g.emit('assert!(key == h.to_le_bytes(), "compile-time key differs from FNV-1a over path ++ documented tag-and-name stream");')
         g.emit('kani::cover!(path.len == 3, "3-byte path reachable");')
-        out += harness('c16_const_' + sid, 'tier=%s class=core cap=900 bounds="%s; path 0..=3 UTF-8 bytes: compile-time hasher (hook H2) vs reference FNV stream" hooks=H2' % (tier, desc), 8, g.lines)
+        out += harness('c16_const_e2e_' + sid, 'tier=thorough class=best cap=1200 bounds="%s; path 0..=3 UTF-8 bytes: compile-time key (hook H2) vs reference FNV, nothing stubbed" hooks=H2' % desc, 8, g.lines)
         # ---- C19 pseudocode
         g = Gen(); build_prelude(g, sid, tree, False, True)
         g.emit('let text = owned.to_pseudocode();')
@@ -301,7 +327,7 @@ def main():
             g.emit('assert!(contains(text.as_bytes(), n%d.bytes()), "rendering does not mention a top-level name");' % n)
         g.emit('kani::cover!(text.len() > 0, "rendering produced");')
         g.emit('core::mem::forget(text);')
-        out += harness('c19_pseudo_' + sid, 'tier=%s class=core cap=900 bounds="%s: to_pseudocode() returns and mentions the type, field and variant names"' % (tier, desc), 8, g.lines)
+        out += harness('c19_pseudo_' + sid, 'tier=%s class=core cap=900 bounds="%s: to_pseudocode() returns and mentions the type, field and variant names"' % (tier, desc), 34, g.lines)
         # ---- C19 discover
         g = Gen(); build_prelude(g, sid, tree, False, True)
         ns = nodes(tree, [])
